@@ -115,6 +115,29 @@ Proof.
     refine (conj H1 (conj H2 (conj H3 (conj H4 (conj _ _))))); intros; discriminate.
 Qed.
 
+(* the decidable rendition used by the judges decides match_spec *)
+Lemma match_spec_b_correct (sel : selector) (pt : page_type) : match_spec_b sel pt = true <-> match_spec sel pt.
+Proof.
+  rewrite <- page_type_match_iff.
+  assert (N : forall a b i, nth_spec_b a b i = nth_test a b i).
+  { intros a b i. destruct (nth_test a b i) eqn:E.
+    - apply nth_spec_b_correct. now apply nth_semantics.
+    - destruct (nth_spec_b a b i) eqn:E2; [|reflexivity].
+      apply nth_spec_b_correct in E2. apply nth_semantics in E2. congruence. }
+  unfold match_spec_b, page_type_match, opt_in.
+  destruct (s_side sel) as [sd|]; [destruct (side_eqb sd (pt_side pt))|]; simpl; try (split; discriminate);
+  (destruct (s_blank sel) as [bl|]; [destruct (Bool.eqb bl (pt_blank pt))|]; simpl; try (split; discriminate));
+  (destruct (s_first sel) as [f|]; [destruct (Bool.eqb f (pt_index pt =? 0))|]; simpl; try (split; discriminate));
+  (destruct (s_name sel) as [n|]; [destruct (String.eqb n (pt_name pt))|]; simpl; try (split; discriminate));
+  (destruct (s_index sel) as [[[a b] [g|]]|]; [| |reflexivity];
+   [destruct (String.eqb g (pt_name pt)); simpl; [|split; discriminate];
+    assert (E : existsb (fun gi => (g =? fst gi)%string && nth_spec_b a b (snd gi)) (pt_groups pt)
+                = existsb (fun gi => (g =? fst gi)%string && nth_test a b (snd gi)) (pt_groups pt))
+      by (induction (pt_groups pt) as [|x l IH]; simpl; [reflexivity|now rewrite N, IH]);
+    rewrite E; reflexivity
+   |rewrite N; reflexivity]).
+Qed.
+
 Example match_example :
   page_type_match (mkSel (Some SRight) None None (Some (2, 1, Some "chapter")) None)
                   (mkPT SRight false "chapter" 6 [("chapter", 2)]) = true /\
